@@ -86,7 +86,30 @@ let eitem c =
             let w = bool_tok (next c) in
             { ei_evs = evs; ei_ret = ret; ei_warn = w }
   | t -> raise (Bad ("eitem " ^ t))
+(* warning-printed-through-the-cache scenarios: 4 <pre> <c0> <g> wop*  with wop ::= :a n | :d k | :f j n | :p   (coq/C18_ModelW.v)
+   observation = item* :x <depth> <prints>   (one :i item per call made on the cache, the output's calls included) *)
+let wop c =
+  match next c with
+  | ":a" -> WAlloc (n_tok (next c))
+  | ":d" -> WRel (nat_tok (next c))
+  | ":f" -> let j = n_tok (next c) in WFor (j, n_tok (next c))
+  | ":p" -> WPrint
+  | t -> raise (Bad ("wop " ^ t))
+let is_warn ts = match ts with "4" :: _ -> true | _ -> false
+let wscenario ts =
+  let c = { rest = List.tl ts } in
+  let pre = bool_tok (next c) in
+  let c0 = n_tok (next c) in
+  let g = n_tok (next c) in
+  let rec go acc = if at_end c then List.rev acc else go (wop c :: acc) in
+  { w_pre = pre; w_c0 = c0; w_g = g; w_ops = go [] }
 let run_line ts =
+  if is_warn ts then begin
+    let s = wscenario ts in
+    if not (wvalid s) then raise (Bad "warning scenario is not valid (see wvalid in coq/C18_ModelW.v)")
+    else let o = wrun s in
+      String.concat " " (List.map pitem o.wo_items @ [":x"; pn o.wo_depth; pn o.wo_prints])
+  end else
   if is_env ts then begin
     let s = escenario ts in
     if not (evalid s) then raise (Bad "environment scenario is not valid (see evalid in coq/C18_ModelE.v)")
@@ -128,6 +151,19 @@ let gitem c =
             { gi_it = { i_evs = evs; i_ret = ret; i_warn = w }; gi_out = o; gi_dbl = d }
   | t -> raise (Bad ("gitem " ^ t))
 let spec_line ts os =
+  if is_warn ts then begin
+    let s = wscenario ts in
+    if not (wvalid s) then true else
+    let c = { rest = os } in
+    let rec go acc = if at_end c || peek c = Some ":x" then List.rev acc else go (item c :: acc) in
+    let its = go [] in
+    if at_end c then false else begin
+      ignore (next c);
+      let d = n_tok (next c) in
+      let p = n_tok (next c) in
+      wspec s { wo_items = its; wo_depth = d; wo_prints = p }
+    end
+  end else
   if is_env ts then begin
     let s = escenario ts in
     if not (evalid s) then true else
